@@ -365,7 +365,7 @@ class DB:
         """Does type `ti` transitively contain a type satisfying pred(type dict)?
         Goes through generic args, references, tuples, slices, arrays and the fields
         of local ADTs."""
-        key = (ti, id(pred))
+        key = (ti, pred)  # the predicate object itself (kept alive by the cache), never its id()
         if key in self._contains_cache:
             return self._contains_cache[key]
         seen = _seen if _seen is not None else set()
